@@ -63,6 +63,15 @@ def gen_members(case, R, block, limit):
     pool = NAME_POOL[:]
     R.shuffle(pool)
     datas = [texture(R, case.get("texture") or R.choice(["random", "rep", "code"]), n) for n in sizes]
+    # contents are told apart by their hash: two non-empty members must not carry identical bytes (1-byte members collide by chance)
+    seen = set()
+    for i, d in enumerate(datas):
+        tries = 0
+        while d and d in seen and tries < 1000:
+            d = R.randbytes(len(d))
+            tries += 1
+        datas[i] = d
+        seen.add(d)
     return sizes, pool, datas
 
 
@@ -265,3 +274,58 @@ def run_case(case):
         rec.uninstall()
         C.get_default_blocksize, P.get_default_blocksize, P.get_memory_limit = o_block, o_blockP, o_limit
         shutil.rmtree(wd, ignore_errors=True)
+
+
+def ppmd_log_calls(case):
+    """run the case with every call py7zr makes on pyppmd's decoder written to a log (survives a crash of the interpreter)"""
+    import pickle
+    from .common import import_py7zr
+
+    import_py7zr()
+    import py7zr.compressor as C
+    o, oi = C.PpmdDecompressor.decompress, C.PpmdDecompressor.__init__
+    log = open(case["ppmd_log"], "wb")
+
+    def init(self, properties, blocksize=None):
+        pickle.dump(("init", bytes(properties)), log)
+        log.flush()
+        oi(self, properties, blocksize)
+
+    def dec(self, data, max_length=-1):
+        pickle.dump(("dec", bytes(data), int(max_length)), log)
+        log.flush()
+        return o(self, data, max_length)
+
+    C.PpmdDecompressor.decompress, C.PpmdDecompressor.__init__ = dec, init
+    try:
+        return run_case({k: v for k, v in case.items() if k != "ppmd_log"})
+    finally:
+        C.PpmdDecompressor.decompress, C.PpmdDecompressor.__init__ = o, oi
+
+
+def ppmd_replay_calls(path):
+    """the logged calls, made on pyppmd ALONE (no py7zr code involved): a decoder per 'init', the same data and output limits"""
+    import pickle
+    import struct
+    import pyppmd
+
+    d = None
+    n = 0
+    with open(path, "rb") as f:
+        while True:
+            try:
+                x = pickle.load(f)
+            except EOFError:
+                break
+            if x[0] == "init":
+                order, mem = struct.unpack("<BL", x[1][:5])
+                d = pyppmd.Ppmd7Decoder(order, mem)
+            else:
+                _, data, ml = x
+                try:
+                    r = d.decode(b"\0", ml) if (len(data) == 0 and d.needs_input) else d.decode(data, ml)
+                except Exception as ex:  # noqa
+                    return f"pyppmd alone, given the calls py7zr made, raises {ex!r}"
+                n += len(r)
+    return "ok"
+
